@@ -35,4 +35,4 @@ package metadata
 
 //@ -- C07: every access to the captured frame data should happen under a lock of the record (there is none: the
 //@ -- unsynchronised accesses are recorded as known findings, any new access site is a fresh violation).
-//@ guarded_by [C07:frames-lock] HTTP2FingerprintingFrames.mu Settings,WindowUpdateIncrement,Priorities,Headers
+//@ guarded_by [C07:frames-lock] HTTP2FingerprintingFrames.mu *
